@@ -145,3 +145,18 @@ uint64_t drv_vss_strarr_count(uint8_t *packed, uint16_t len) {
     arr.data = packed;
     return Avtp_Vss_GetVSSDataStringArrayLength(&arr);
 }
+
+/* unpack only: every destination descriptor holds `stale_len` when the call is made (the lengths are outputs); out_lens receives them */
+uint64_t drv_vss_strarr_unpack(uint8_t *packed, uint16_t len, int n, char **dst, uint16_t stale_len, uint16_t *out_lens) {
+    VssDataString_t out[48];
+    VssDataString_t *outp[48];
+    VssDataStringArray_t arr;
+    int i;
+    if (n > 48) n = 48;
+    for (i = 0; i < n; i++) { out[i].data_length = stale_len; out[i].data = dst[i]; outp[i] = &out[i]; }
+    arr.data_length = len;
+    arr.data = packed;
+    Avtp_Vss_DeserializeStringArray(&arr, outp, (uint16_t)n);
+    for (i = 0; i < n; i++) out_lens[i] = out[i].data_length;
+    return 0;
+}
